@@ -35,6 +35,12 @@ servers:
 security:
   - key: []
 paths:
+  /pets/mine:
+    get:
+      operationId: getMine
+      security: []
+      responses:
+        '200': {description: ok}
   /pets/{id}:
     parameters:
       - {name: id, in: path, required: true, schema: {type: integer, minimum: 1}}
@@ -134,6 +140,7 @@ paths:
               properties:
                 name: {type: string, minLength: 2}
                 note: {type: string, pattern: 'MARKm'}
+                extra: {type: object, properties: {k: {type: string, minLength: 1}, n: {type: string}}}
       responses:
         '201': {description: created}
   /csv:
